@@ -102,6 +102,7 @@ func (cron *Cron) Register(name string, task func(), interval time.Duration) err
 		interval:  interval,
 		nextEvent: time.Now().Add(interval),
 	}
+	job.task = simWrapCron(name, job.task)
 	cron.jobs[name] = job
 
 	return nil
